@@ -1,0 +1,5 @@
+//go:build !verif
+
+package items
+
+func (this *ItemSet) verifCheckClasses() {}
